@@ -156,7 +156,7 @@ class C09(Property):
         # build, where the typed parsers and the free functions filter comment / non-logical-newline tokens separately
         import zlib
         fs = self.check_cfg(case, ctx, 'A') or []
-        if case['k'] == 'text' and zlib.crc32(case['text'].encode('utf-8')) % 3 == 0:
+        if case['k'] == 'text' and (case.get('cfgC') or zlib.crc32(case['text'].encode('utf-8')) % 3 == 0):
             ctx.count('also_in_full_lexer_build')
             for f in self.check_cfg(case, ctx, 'C') or []:
                 f.signature = f.signature + ':C'
